@@ -162,16 +162,18 @@ CHECKS["C11"] = dict(
 
 CHECKS["C08"] = dict(
     technique="Coq proofs (sorted running sums = counting definition for any tie-breaking; model = Kingman density; piece integrals by Coquelicot is_RInt; all-equal = constant; scaling law) on a polymorphic hand-written model; Paramcoq enclosure theorems; interval-run correspondence on log_prob and the JSON-built model call",
-    text="34 theorems in prop/C08.v: sorted_cumsum_is_counting and order_invariance for all six models (grid models under "
-         "no_tie: no grid point exactly on a coalescent time), model = Kingman density for constant / exponential / "
-         "skyride / skygrid (full) and piecewise-linear / piecewise-exponential (partial: no_tie), the closed-form piece "
-         "integrals are the integrals of 1/N (Coquelicot), all-equal = constant, scaling law (constant, exponential, "
-         "skyride, skygrid), Paramcoq enclosures of the interval runs. Tie to the code: interval-run correspondence "
+    text="40 theorems in prop/C08.v: sorted_cumsum_is_counting and order_invariance for all six models, model = Kingman "
+         "density for constant / exponential / skyride / skygrid (the piecewise-constant grid model under no_tie: its N jumps "
+         "at grid points) and for piecewise-linear / piecewise-exponential WITH ties between coalescent times and grid points "
+         "(C08_linear_eq_kingman, C08_pwexp_eq_kingman: continuity of N across grid points; the grid must be 0 < g1 < g2 < .. "
+         "resp. sorted, and four _refuted theorems give witnesses that each part of that hypothesis is necessary), the "
+         "closed-form piece integrals are the integrals of 1/N (Coquelicot), all-equal = constant, scaling law (constant, "
+         "exponential, skyride, skygrid), Paramcoq enclosures of the interval runs. Tie to the code: interval-run correspondence "
          "(relative 1e-9) on Distribution.log_prob and the JSON-built model call, n = 2..50, serial sampling with ties, "
          "shuffled heights, grids inside/beyond the root/before the first coalescence, batched; direct checks on the "
          "implementation: permutations, scaling, all-equal = constant, one-piece pwexp = exponential, refined skygrid.",
     note="Trusted: Coq kernel; hand-written model M_coalescent.v; torch argsort/bucketize modelled by exact sorting on Q "
-         "keys; scaling law for linear/pwexp and removal of no_tie not proved (checked on the implementation only); "
+         "keys; scaling law for linear/pwexp not proved (checked on the implementation only); "
          "batch layouts that raise belong to C10.",
     design="§6 C08")
 
@@ -179,29 +181,29 @@ AX_R = ("Axioms (Print Assumptions): standard-library reals (sig_forall_dec, sig
         "Classical_Prop.classic; Uint63/PrimInt63 primitive specs for the interval/bigQ run theorems only.")
 
 CHECKS["C04"] = dict(
-    technique="Coq proofs on rate-matrix builders regenerated from source (ast translator T2: HKY.q, GTR.q, JC closed forms, LG/WAG and genetic-code tables) and on hand-written general/empirical/MG94 builders: rows sum to zero, off-diagonals non-negative, detailed balance, normalisation, spectral formula = semigroup with generator Q; Paramcoq enclosure of an exact Taylor reference; correspondence on q(), frequencies, p_t()",
-    text="23 theorems in prop/C04.v: C04_builder_rate_matrix / _reversible / C04_normalised / C04_norm_positive for every state count, "
+    technique="Coq proofs on rate-matrix builders regenerated from source (ast translator T2: HKY.q, GTR.q, JC closed forms, LG/WAG and genetic-code tables) and on hand-written general/empirical/MG94 builders: rows sum to zero, off-diagonals non-negative, detailed balance, normalisation, spectral formula = the matrix exponential power series (Coquelicot), stochastic for t >= 0; Paramcoq enclosure of an exact Taylor reference; correspondence on q(), frequencies, p_t()",
+    text="27 theorems in prop/C04.v: C04_builder_rate_matrix / _reversible / C04_normalised / C04_norm_positive for every state count, "
          "mapping and parameter value; C04_hky / C04_gtr (+ _is_documented_matrix) about the entries regenerated from nucleotide.py; "
          "C04_general_symmetric / _nonsymmetric / C04_empirical / C04_mg94 (every genetic code table regenerated from source); "
          "C04_spectral_semigroup and C04_spectral_generator (A diag(exp(lambda t)) B with A B = I: P(0)=I, P(s+t)=P(s)P(t), P'(0)=Q), "
          "C04_symmetrisation (the sqrt(pi) similarity the code uses), C04_jc69 / C04_general_jc69(_q) closed forms; "
-         "C04_run_encloses_Q / _taylor: the interval runs enclose the real model. C04_symmetric_p_t_partial: 'P(t) IS the matrix "
-         "exponential' is concluded from semigroup + generator + continuity by the classical uniqueness theorem, which is not "
-         "formalised. Tie: T2 translator + interval-run correspondence on q(), frequencies, p_t(t) of every model class built "
+         "C04_run_encloses_Q / _taylor: the interval runs enclose the real model. C04_p_t_is_matrix_exponential: for every t and "
+         "entry the power series sum_k t^k/k! (Q^k)_ij converges (Coquelicot is_series) to the code's spectral formula, i.e. "
+         "P(t) IS exp(Qt); C04_p_t_rows_are_probability_vectors: entries in [0,1] for t >= 0 and rows summing to one for every "
+         "rate matrix; both also for ANY real diagonalisation (C04_any_real_diagonalisation_*). Tie: T2 translator + interval-run correspondence on q(), frequencies, p_t(t) of every model class built "
          "from JSON (single, batched all / rates-only / frequencies-only), t in [0,100], against the exact scaling-and-squaring "
          "Taylor reference of the model's Q; eig oracles validated exactly; property identities (row sums, P(0)=I, semigroup, "
          "pi P = pi, detailed balance) evaluated on the implementation.",
-    note="Trusted: Coq kernel; T2 translator; hand-written M_subst.v; not formalised: uniqueness of the matrix semigroup with given "
-         "generator, truncation bound of the degree-20 Taylor reference (cross-checked by the semigroup identity each run); torch "
+    note="Trusted: Coq kernel; T2 translator; hand-written M_subst.v; not formalised: truncation bound of the degree-20 Taylor reference (cross-checked by the semigroup identity each run); torch "
          "eigh/matrix_exp are oracles validated per case. " + AX_R,
     design="§6 C04")
 
 CHECKS["C09"] = dict(
     technique="Coq proofs (Coquelicot is_derive) that the closed forms p0 and q solve the birth-death master equations for all positive rates, boundary wiring of the backward recursion, split-epoch invariance, single epoch = constant model; JSON option table regenerated from from_json by translator T6 and proved to select what it names; Paramcoq enclosures; interval-run correspondence on log_prob / BDSKModel() / BirthDeathModel()",
-    text="14 theorems in prop/C09.v: C09_p0_solves_master, C09_q_solves_master (d/dt of the closed forms = right-hand sides of the master "
+    text="15 theorems in prop/C09.v: C09_p0_solves_master, C09_q_solves_master (d/dt of the closed forms = right-hand sides of the master "
          "equations, every lambda, mu, psi > 0), C09_boundary_wiring, C09_split_epoch (one cut with identical rates and rho = 0 leaves p "
-         "and the q-product unchanged), C09_refinement_invariance_partial (any number of cuts of ONE epoch; cuts spread over several "
-         "epochs at once not composed), C09_single_epoch_is_constant, C09_options_cover_constructor / _defaults_agree / "
+         "and the q-product unchanged), C09_refinement_invariance (the WHOLE density is unchanged when any epoch of a skyline with any number of "
+         "epochs is cut in two, every tree incl. tips/nodes on the cut, +- survival, +- removal probabilities; cuts compose), C09_single_epoch_is_constant, C09_options_cover_constructor / _defaults_agree / "
          "_select_what_they_name over the table regenerated from BDSKModel.from_json / BirthDeathModel.from_json on every run, "
          "C09_run_encloses_* free theorems. Tie: T6 + interval-run correspondence (relative 1e-9) on PiecewiseConstantBirthDeath.log_prob, "
          "BDSKModel(), BirthDeath.log_prob, BirthDeathModel() over random trees n = 2..12, 1..8 epochs, boundaries on node / tip times, "
